@@ -57,9 +57,9 @@ func allSpecs() map[string]*PropSpec {
 	add(&PropSpec{
 		ID:          "C13",
 		Technique:   "must/may lockset data-flow over SSA with VTA call graph, dominance of version guards over publication, synchronous version numbering at go statements, publication-attempt dominance of every return of the background analysis",
-		Explanation: "C-PUBLISH: every PublishDiagnostics call reachable from a goroutine the server starts is (directly, or through every caller of the function value it sits in) inside a critical section and on the 'equal' side of a comparison between per-document state keyed by the document and the version the analysis was started for; every go statement that starts such an analysis passes a version obtained by a call made synchronously in the notification handler to a function that increments that state under the same lock. C-ROOTS: census of go statements, serial dispatch (no AsyncHandler). Decided for all interleavings at once. C13-SKIP: every return of the background analysis is dominated by a publication attempt, or depends only on the request itself (no client, no path), never on state left by earlier analyses.",
+		Explanation: "C-PUBLISH: every PublishDiagnostics call reachable from a goroutine the server starts is (directly, or through every caller of the function value it sits in) inside a critical section and on the 'equal' side of a comparison between per-document state keyed by the document and the version the analysis was started for; every go statement that starts such an analysis passes a version obtained by a call made synchronously in the notification handler to a function that increments that state under the same lock. C-ROOTS: census of go statements, serial dispatch (no AsyncHandler). Decided for all interleavings at once. C13-SKIP: every return of the background analysis is dominated by a publication attempt, or depends only on the request itself (no client, no path), never on state left by earlier analyses. C13-BUMP: a version bump whose result is used (it supersedes the analysis in flight) is followed on every path by the start of the analysis that receives the new version.",
 		NotDecided:  "that the diagnostics of the latest version equal 'the diagnostics of the latest text' as values (relies on analysis being a function of the text, C15); fairness of the Go scheduler.",
-		Rules:       []func(*Ctx){ruleConcRoots, rulePublish},
+		Rules:       []func(*Ctx){ruleConcRoots, rulePublish, ruleBump},
 	})
 	add(&PropSpec{
 		ID:          "C14",
